@@ -23,7 +23,7 @@ def add_list_type():
     pass
 
 
-def verify_functions(keys, *, prop=None, repo='/repo', scope=None, timeout_ms=10000, default_scope=3, R=None, interrupts=None):
+def verify_functions(keys, *, prop=None, repo='/repo', scope=None, timeout_ms=10000, default_scope=3, R=None, interrupts=None, cross_check=False):
     """-> dict(functions=[...], obligations={name: record}, unsupported={fkey: reason}, stats)"""
     R = R or registry()
     index = SourceIndex(repo)
@@ -44,6 +44,7 @@ def verify_functions(keys, *, prop=None, repo='/repo', scope=None, timeout_ms=10
             ctx_u = Ctx(False, enums=dict(R.enums))
             e2 = Exec(R, ctx_u, index, prop=prop, timeout_ms=timeout_ms, houdini=dict(e1.houdini))
             e2.interrupt_budget = dict(interrupts or {})
+            e2.cross_check = cross_check
             install_axioms(e2, out.setdefault('lemmas', {}))
             e2.skip_names = {n for n, ob in e1.obligations.items() if ob.status == 'refuted'}
             e2.verify_function(fkey)
@@ -71,6 +72,9 @@ def verify_functions(keys, *, prop=None, repo='/repo', scope=None, timeout_ms=10
                 rec['handler_entry_invariants'] = e1.handler_entry_invs.get(fkey, [])
             for k, v in e1.trusted_uses.items():
                 out['trusted_uses'][k] = out['trusted_uses'].get(k, 0) + v
+            for k_, v_ in e2.cross.items():
+                out.setdefault('cross_check', {}).setdefault(k_, 0)
+                out['cross_check'][k_] += v_
             out['solver_time'] += e1.solver_time + e2.solver_time
             out['queries'] += e1.queries + e2.queries
         except Unsupported as ex:
